@@ -654,7 +654,11 @@ class SymEvaluator:
                     res.append((p1, self._slice(base, lo, hi)))
                 else:
                     for p2, idx in self._eval(x.slice, p1, fn):
-                        res.append((p2, self._index(base, idx, x)))
+                        if isinstance(base, dict) and isinstance(idx, SStr) and idx.known is None and base \
+                                and all(isinstance(k, str) for k in base):
+                            res.extend(self._dict_fork(base, idx, p2, None))
+                        else:
+                            res.append((p2, self._index(base, idx, x)))
             return res
         if isinstance(x, ast.Attribute):
             res = []
@@ -855,6 +859,31 @@ class SymEvaluator:
             return base[lo:hi]
         raise AnalysisError("symeval: slice of unsupported value")
 
+    def _dict_fork(self, table, key, p, default=None):
+        """table[key] / table.get(key) for a constant table and a symbolic string key: one
+        outcome per key under the condition `key == k`, and the miss outcome (default, or
+        KeyError when default is None-the-Python-object)."""
+        out = []
+        miss = p.fork()
+        for k, v in table.items():
+            text = f"{key.path} == {k!r}"
+            self.cond_objs[text] = Cmp(text, "==", key, SStr(repr(k), known=k))
+            prior = [b for c, b in p.conds if c == text]
+            if prior and not prior[-1]:
+                continue
+            pp = p.fork()
+            if not prior:
+                pp.conds.append((text, True))
+            out.append((pp, v))
+            if prior:           # already known equal: no other outcome
+                return out
+            miss.conds.append((text, False))
+        if default is not None:
+            out.append((miss, default))
+        else:
+            self._sink.append(Outcome(miss.conds, Raised("KeyError"), "raise"))
+        return out
+
     def _index(self, base, idx, node):
         if isinstance(base, dict):
             k = _key(idx)
@@ -962,6 +991,10 @@ class SymEvaluator:
         if isinstance(f, External):
             return [(p, self._external(f.name, args, kw, node))]
         if isinstance(f, MethodRef):
+            if isinstance(f.base, dict) and f.attr == "get" and args and isinstance(args[0], SStr) \
+                    and args[0].known is None and f.base and all(isinstance(k, str) for k in f.base):
+                default = args[1] if len(args) > 1 else NONE
+                return self._dict_fork(f.base, args[0], p, default)
             return [(p, self._method(f.base, f.attr, args, kw, node))]
         if isinstance(f, SAttr):
             return [(p, self._method(f.base, f.attr, args, kw, node))]
@@ -1167,6 +1200,27 @@ class SymEvaluator:
                             items[i] = SStr(repr(piece), known=piece)
                         return SList(f"{path}.split({sp!r})", items)
                 return SList(f"{path}.split({sp!r})")
+            if attr == "format" and known is not None:
+                # str.format on a literal template == the equivalent f-string
+                import string
+                parts, auto = [], 0
+                for lit_, field, spec, conv in string.Formatter().parse(known):
+                    if lit_:
+                        parts.append(SStr(repr(lit_), known=lit_))
+                    if field is None:
+                        continue
+                    if conv:
+                        raise AnalysisError("symeval: str.format conversion flags are not modelled")
+                    if field == "":
+                        val, auto = args[auto], auto + 1
+                    elif field.isdigit():
+                        val = args[int(field)]
+                    elif field in kw:
+                        val = kw[field]
+                    else:
+                        raise AnalysisError(f"symeval: str.format field {field!r} is not modelled")
+                    parts.append(Fmt(val, spec or None))
+                return SStr("fstring", parts=parts)
             if attr in ("strip", "lstrip", "rstrip", "lower", "upper"):
                 if known is not None:
                     return SStr(repr(getattr(known, attr)(*[a.known for a in args])),
